@@ -38,6 +38,13 @@ type Scenario struct {
 	Desc      map[string]any
 	// Unspec: scenario-level reason why either generation outcome is acceptable
 	Unspec string
+	// run-time call shape of the tested method
+	SrcIdx int
+	CtxIdx []int
+	TgtIdx int
+	NeedConv bool              // pass the converter instance to the interpreter
+	Files    map[string]string // extra files of the scratch module (other packages)
+	Imports  []string          // extra package keys imported by conv.go
 }
 
 func (sc *Scenario) ifaceSource() string {
@@ -100,7 +107,7 @@ func scenarioModule(prefix string, scs []*Scenario) (*emit.Module, error) {
 	}
 	mod.AddUniverse(u)
 	var b strings.Builder
-	b.WriteString(convHeader)
+	b.WriteString(convHeaderWith(scenarioImports(scs)))
 	for _, sc := range scs {
 		b.WriteString(sc.ifaceSource())
 		b.WriteString("\n")
@@ -108,6 +115,15 @@ func scenarioModule(prefix string, scs []*Scenario) (*emit.Module, error) {
 		b.WriteString("\n")
 	}
 	mod.Add("conv/conv.go", b.String())
+	for _, sc := range scs {
+		for n, c := range sc.Files {
+			if old, ok := mod.Files[n]; ok && old != c {
+				mod.Files[n] = old + "\n" + stripPackageClause(c)
+			} else {
+				mod.Add(n, c)
+			}
+		}
+	}
 	return mod, mod.Write()
 }
 
@@ -209,8 +225,25 @@ func ScenarioWorker(w *pool.W, scs []*Scenario, tier string, runtime bool) error
 			ID: sc.ID, Iface: sc.ifaceSource() + "\n" + sc.FuncsSrc,
 			FnExpr: fmt.Sprintf("(&generated.%sImpl{}).%s", sc.ID, tm.Name),
 			Assert: fmt.Sprintf("var _ conv.%s = &generated.%sImpl{}", sc.ID, sc.ID),
-			Plan:   res.Plan, Mode: mode, Funcs: sc.Funcs, Meta: meta,
+			Plan:   res.Plan, Mode: mode, Funcs: sc.Funcs, Meta: meta, SrcIdx: sc.SrcIdx, CtxIdx: sc.CtxIdx, TgtIdx: sc.TgtIdx,
+			Conv: convExpr(sc),
 		})
+		for n, c := range sc.Files {
+			if batch.Files == nil {
+				batch.Files = map[string]string{}
+			}
+			if old, ok := batch.Files[n]; ok && old != c {
+				batch.Files[n] = old + "\n" + stripPackageClause(c)
+			} else {
+				batch.Files[n] = c
+			}
+		}
+		for _, im := range sc.Imports {
+			if !containsStr(batch.Imports, im) {
+				batch.Imports = append(batch.Imports, im)
+				batch.MainImps = append(batch.MainImps, im)
+			}
+		}
 	}
 	if !runtime {
 		return nil
@@ -234,4 +267,54 @@ func sortedSet(m map[string]bool) []string {
 	}
 	sort.Strings(k)
 	return k
+}
+
+func convExpr(sc *Scenario) string {
+	if sc.NeedConv {
+		return "&generated." + sc.ID + "Impl{}"
+	}
+	return ""
+}
+
+func containsStr(l []string, x string) bool {
+	for _, y := range l {
+		if y == x {
+			return true
+		}
+	}
+	return false
+}
+
+func scenarioImports(scs []*Scenario) []string {
+	var out []string
+	for _, sc := range scs {
+		for _, im := range sc.Imports {
+			if !containsStr(out, im) {
+				out = append(out, im)
+			}
+		}
+	}
+	return out
+}
+
+func convHeaderWith(imps []string) string {
+	var b strings.Builder
+	b.WriteString("package conv\n\nimport (\n\t\"fmt\"\n\t\"unsafe\"\n\n\t\"vx/in\"\n\t\"vx/out\"\n")
+	for _, i := range imps {
+		fmt.Fprintf(&b, "\t%s\n", space.ImportSpec(i))
+	}
+	b.WriteString(")\n\nvar (\n\t_ unsafe.Pointer\n\t_ in.MyInt\n\t_ out.MyInt\n\t_ = fmt.Sprint\n)\n" + boomSource + "\n")
+	return b.String()
+}
+
+// stripPackageClause removes "package x" and import lines so that two scenario files of one package can be concatenated.
+func stripPackageClause(src string) string {
+	var keep []string
+	for _, l := range strings.Split(src, "\n") {
+		if strings.HasPrefix(l, "package ") || strings.HasPrefix(l, "import ") {
+			continue
+		}
+		keep = append(keep, l)
+	}
+	return strings.Join(keep, "\n")
 }
